@@ -17,6 +17,8 @@ TRUSTED = [
     "levels produced by smoothing are taken as given; files modelled as line lists (see C11)",
     "int/int and float/int true division of CPython = binary64 division of the converted operands (operands < 2^53), "
     "exercised on every probability written",
+    "Print Assumptions lists Coq's primitive float / int63 operations (div, of_uint63, ...) for C18_prob: primitives of "
+    "the kernel, not logical axioms",
     "the comparison operators / bounds of calc_omen_keyspace and _rec_calc_keyspace are re-extracted from the source on "
     "every run (harness/consts/omen_level.py, fail closed) and pinned by side-condition lemmas in Props/C18.v",
 ]
